@@ -52,11 +52,12 @@ def doc_monomials(shape, nPg):
 
 
 def rule_for(case):
-    et = ElemType(case["elemType"])
+    # byname: element type and matrix type given by their names (both enums are str-Enums and the constructor accepts strings)
+    et = case["elemType"] if case.get("byname") else ElemType(case["elemType"])
     if case["via"] == "nPg":
         g = Gauss(et, int(case["nPg"]))
     else:
-        g = Gauss(et, MatrixType(case["matrixType"]))
+        g = Gauss(et, case["matrixType"] if case.get("byname") else MatrixType(case["matrixType"]))
     return np.asarray(g.coord, float), np.asarray(g.weights, float)
 
 
@@ -69,6 +70,7 @@ def enum_tables(tier):
         mts = ["rigi", "mass", "beam", "beam_shear"] if et in gm.SEG else ["rigi", "mass"]
         for mt in mts:
             yield dict(via="matrixType", elemType=et, matrixType=mt)
+            yield dict(via="matrixType", elemType=et, matrixType=mt, byname=True)
 
 
 def check_tables(case, rec):
